@@ -197,6 +197,12 @@ def verify_fuc(spec, opts):
         res.secs = time.time() - t0
         return res
     res.sha = hashlib.sha256(mod.source_of(fnode).encode()).hexdigest()[:16]
+    from . import locals_ as _locals
+    al = _locals.aliases(spec.file, spec.qual, fnode)
+    Frame.alias = dict(al)
+    if al:
+        spec = _apply_alias(spec, al)
+        res.notes.append('locals renamed since the contract was written, bound through aliases: %s' % sorted(al.items()))
     res.decorators = mod.decorator_facts(fnode)
     spec.first_line = fnode.lineno
     from . import state as _state
@@ -307,6 +313,35 @@ def verify_fuc(spec, opts):
     res.missing_cover = [c for c in spec.cover if c not in res.covered]
     res.secs = time.time() - t0
     return res
+
+
+def _rekey(d, al):
+    out = dict(d)
+    for k, v in d.items():
+        if not isinstance(k, str):
+            continue
+        root = k.split('.')[0].split('(')[0].split('[')[0]
+        if root in al:
+            out[al[root] + k[len(root):]] = v
+    return out
+
+
+def _apply_alias(spec, al):
+    """a copy of the spec whose name-keyed tables (call summaries, attribute hooks, environment, loop kinds) also answer to the
+    current names of consistently renamed locals"""
+    import copy
+    sp = copy.copy(spec)
+    sp.calls = _rekey(spec.calls, al)
+    sp.attr_hooks = _rekey(spec.attr_hooks, al)
+    sp.env = _rekey(spec.env, al)
+    sp.loops = {}
+    for k, ls in spec.loops.items():
+        l2 = copy.copy(ls)
+        l2.kinds = _rekey(ls.kinds, al)
+        l2.keep = _rekey(ls.keep, al) if isinstance(ls.keep, dict) else ls.keep
+        l2.stable_locals = set(ls.stable_locals) | {al[x] for x in ls.stable_locals if x in al}
+        sp.loops[k] = l2
+    return sp
 
 
 def vacuity_check(spec, o, res, mod, fnode, clsname):
